@@ -62,11 +62,7 @@ func kvBegin(mask int) *kvCtx {
 		verifCutEvents()
 	}
 	if mask&pC10 != 0 {
-		nf := 1
-		if verifThorough() {
-			nf = 2
-		}
-		verifFaults(env.db, nf) // injected Begin/Exec/Commit failures (BUSY or I/O error)
+		verifFaults(env.db, verifFaultBudget) // injected Begin/Exec/Commit failures (BUSY or I/O error)
 		k.cc0 = verifCommitCount(env.db)
 	}
 	if mask&pC14 != 0 {
